@@ -67,7 +67,7 @@ def _template(draw):
     ops += draw(st.lists(_op(BODY), min_size=0, max_size=3))
     ops.append(["nested", 0, 0, 0])
     inner = draw(st.lists(_op(BODY), min_size=0, max_size=3))
-    inner += [["new", draw(small), draw(small), 0], ["delete", draw(small), 0, 0],
+    inner += [["new", draw(small), draw(small), 0], ["delete", draw(small), 0, 0], ["delete", draw(small), 0, 0], ["set", draw(small), draw(small), 0],
               draw(st.sampled_from([["set", 0, 1, 0], ["pk", 0, 0, 0], ["setparent", 0, 0, 0], ["tagadd", 0, 0, 0]]))[:1] + [draw(small), draw(small), draw(small)]]
     inner = draw(st.permutations(inner))
     ops += list(inner)
@@ -86,7 +86,7 @@ def _template(draw):
 @st.composite
 def _cases(draw):
     cfg = draw(E.cfg_strategy("c33"))
-    if draw(st.booleans()):
+    if draw(st.integers(0, 9)) < 7:
         ops = draw(_template())
     else:
         ops = draw(E.ops_strategy(C33_CODES, mid=("commit", "commit", "nested")))
